@@ -7,17 +7,26 @@ from typing import Any, Dict, List
 from harness import core, crnlib
 
 
+def enc_mol(v) -> str:
+    """molecule labels are arbitrary objects (SMILES, indices ...): typed encoding, so that 0, '' and 'absent' stay apart"""
+    return ("i:%d" % v) if isinstance(v, int) and not isinstance(v, bool) else "s:" + str(v)
+
+
+def dec_mol(e: str):
+    return int(e[2:]) if e.startswith("i:") else e[2:]
+
+
 def proj_h(H) -> Dict[str, Any]:
     return {"rx": {str(k): {"rule": e.rule, "l": {str(a): int(b) for a, b in e.reactants.data.items()},
                             "r": {str(a): int(b) for a, b in e.products.data.items()}} for k, e in H.edges.items()},
             "species": sorted(H.species),
-            "mol": {str(k): str(v) for k, v in H.species_to_mol.items()}}
+            "mol": {str(k): enc_mol(v) for k, v in H.species_to_mol.items()}}
 
 
 def build(net):
     H = crnlib.build(net)
     for s, m in net.get("mol", {}).items():
-        H.assign_mol(s, m)
+        H.assign_mol(s, dec_mol(m))
     return H
 
 
@@ -39,7 +48,7 @@ def bip_case(inp):
     for n, d in G.nodes(data=True):
         nodes.append({"id": repr(n), "iid": n if isinstance(n, int) and not isinstance(n, bool) else 0,
                       "kind": str(d.get("kind", "")), "label": str(d.get("label", "")),
-                      "eid": str(d.get("edge_id", "")), "mol": str(d.get("mol", ""))})
+                      "eid": str(d.get("edge_id", "")), "mol": enc_mol(d["mol"]) if "mol" in d else ""})
     arcs = [{"u": repr(u), "v": repr(v), "stoich": int(d.get("stoich", -1)), "role": str(d.get("role", ""))}
             for u, v, d in G.edges(data=True)]
     ikw = {}
@@ -103,7 +112,8 @@ class S(core.Stage):
 
 def with_mol(net, rng: random.Random):
     n = dict(net)
-    n["mol"] = {s: f"mol_{s}" for s in net["sp"] if rng.random() < 0.6}
+    # labels: strings, and now and then a molecule index (0 included) or an empty string
+    n["mol"] = {s: rng.choice([f"s:mol_{s}", f"s:mol_{s}", f"s:mol_{s}", "i:0", "i:%d" % rng.randint(1, 9), "s:"]) for s in net["sp"] if rng.random() < 0.6}
     return n
 
 
